@@ -134,8 +134,8 @@ class Check:
                     inputs = cx.inputs if hasattr(cx, "inputs") else state["inputs"]
                     facts = cx.facts()
                     # in-path obligations (safe, pre@callsite, frame.index-space)
-                    for nm, hy, goal, meta in cx.obligations:
-                        self.obls.append(Obl(f"{tag}.{nm}@p{k}", hy, goal, kind=meta.get("kind", "safe"), meta=meta, contract=c, cfg=cfg, clause=f"{tag}.{nm}"))
+                    for j, (nm, hy, goal, meta) in enumerate(cx.obligations):
+                        self.obls.append(Obl(f"{tag}.{nm}#{j}@p{k}", hy, goal, kind=meta.get("kind", "safe"), meta=meta, contract=c, cfg=cfg, clause=f"{tag}.{nm}"))
                     auto_hint = []
                     for key in getattr(cx, "_seen", ()):
                         if isinstance(key, tuple) and key[0] == "atom" and "!" not in key[1] and not key[1].startswith("const_"):
